@@ -153,7 +153,10 @@ def run(chk):
                 xg = a[0] if a else k.get("xgrid")
                 deg = a[1] if len(a) > 1 else k.get("polynomial_degree")
                 mode = a[2] if len(a) > 2 else k.get("mode_N", True)
-                d.attrs.update(basis=xg.attrs["tag"], deg=deg, mode_N=mode)
+                # the real dispatcher wraps bare points into a default (logarithmic) grid: the grid's own log / linear flag is lost
+                whole = isinstance(xg, Obj) and xg.cls is xg_cls
+                d.attrs.update(basis=xg.attrs["tag"] if whole else f"default-log-grid-of-{xg[1] if isinstance(xg, tuple) and len(xg) == 2 else xg}",
+                               deg=deg, mode_N=mode, from_grid_object=whole)
                 built.append(d)
                 return d
 
@@ -170,9 +173,10 @@ def run(chk):
                 n_cases += 2
                 chk.fail("grid-reshape-is-Mout.O.Min", fxg.qname, f"raises {e}", where=fxg.where, instance=f"{use_t},{use_i},{with_err}")
                 continue
-            chk.decide(all(d.attrs["deg"] is deg and d.attrs["mode_N"] is False for d in built) and len(built) == use_t + use_i,
-                       "grid-reshape-is-Mout.O.Min", fxg.qname, f"interpolators built: {[d.attrs for d in built]}; required: the given degree, x-space "
-                       f"mode, one per rotated side", where=fxg.where, instance=f"dispatchers,{use_t},{use_i},{with_err},{same}")
+            chk.decide(all(d.attrs["deg"] is deg and d.attrs["mode_N"] is False and d.attrs["from_grid_object"] for d in built) and len(built) == use_t + use_i,
+                       "grid-reshape-is-Mout.O.Min", fxg.qname, f"interpolators built: {[d.attrs for d in built]}; required: built on the grid OBJECT "
+                       f"(bare points become a logarithmic grid whatever the grid's flag says), the given degree, x-space mode, one per rotated side",
+                       where=fxg.where, instance=f"dispatchers,{use_t},{use_i},{with_err},{same}")
             Mout = M("op", tgt) if use_t else None     # operator basis evaluated at the target points
             Min = M(inp, "op") if use_i else None      # input-grid basis evaluated at the operator's points
             for attr in ("operator", "error"):
